@@ -17,7 +17,7 @@ from sim import shims, trace
 ID = "C18"
 ENGINE = "threadsim"
 LEVEL = "exploration"
-TIERS = {"quick": {"runs": 5000, "timeout": 1200}, "thorough": {"runs": 120000, "timeout": 7200,
+TIERS = {"quick": {"runs": 15000, "timeout": 1200}, "thorough": {"runs": 480000, "timeout": 7200,
                                                                 "lane_timeout": 1800}}
 HASHSEEDS = [0, 1]
 HASHSEEDS_THOROUGH = [0, 1, 2, 3, 4, 5, 6, 7]
